@@ -433,6 +433,18 @@ func (g *docgen) scalar() *dv {
 	}
 }
 
+// elem: an item of a list that ends in a typed slice (commands, matrix values, cache paths): any scalar, now and then
+// null or the empty string
+func (g *docgen) elem() *dv {
+	switch g.rng.Intn(16) {
+	case 0:
+		return dNull()
+	case 1:
+		return dStr("")
+	}
+	return g.scalar()
+}
+
 // arbitrary value tree for unknown fields / plugin configs, leaves carry unique markers
 func (g *docgen) anyValue(depth int) *dv {
 	r := g.rng.Intn(12)
@@ -581,7 +593,7 @@ func (g *docgen) matrix() *dv {
 	vals := func() *dv {
 		l := dList()
 		for k := g.rng.Intn(4); k > 0; k-- {
-			l.l = append(l.l, g.scalar())
+			l.l = append(l.l, g.elem())
 		}
 		return l
 	}
@@ -638,7 +650,7 @@ func (g *docgen) matrix() *dv {
 				}
 				a.set("with", g.maybeWrong(w, 10))
 			} else {
-				a.set("with", g.maybeWrong(sx.Pick(g.rng, []*dv{dStr("banana"), dInt(47), dBool(false), g.str()}), 10))
+				a.set("with", g.maybeWrong(sx.Pick(g.rng, []*dv{dStr("banana"), dInt(47), dBool(false), g.str(), dStr("")}), 10))
 			}
 			switch g.rng.Intn(5) {
 			case 0:
@@ -666,7 +678,7 @@ func (g *docgen) cache() *dv {
 	case 1:
 		return dStr("node_modules")
 	case 2:
-		return dList(dStr("a/"), g.scalar())
+		return dList(dStr("a/"), g.elem())
 	case 3:
 		return dNull()
 	default:
@@ -679,7 +691,7 @@ func (g *docgen) cache() *dv {
 			m.set("disabled", dBool(false))
 		}
 		if g.rng.Chance(70) {
-			m.set("paths", sx.Pick(g.rng, []*dv{dList(dStr("p1"), dStr("p2")), dStr("single"), dList()}))
+			m.set("paths", sx.Pick(g.rng, []*dv{dList(dStr("p1"), dStr("p2")), dStr("single"), dList(), dList(dStr("p1"), g.elem())}))
 		}
 		if g.rng.Chance(50) {
 			m.set("name", g.scalar())
@@ -700,6 +712,9 @@ func (g *docgen) signature() *dv {
 	case 1:
 	default:
 		m.set("signed_fields", dList(dStr("command"), dStr("env"), dStr("plugins"), dStr("matrix"), dStr("repository_url")))
+		if g.rng.Chance(10) {
+			m.get("signed_fields").l = append(m.get("signed_fields").l, dNull())
+		}
 	}
 	return m
 }
@@ -717,7 +732,7 @@ func (g *docgen) commandStep() *dv {
 	case 1:
 		l := dList()
 		for k := g.rng.Intn(4); k > 0; k-- {
-			l.l = append(l.l, g.scalar())
+			l.l = append(l.l, g.elem())
 		}
 		add("commands", g.maybeWrong(l, 8))
 	case 2:
@@ -804,7 +819,22 @@ func (g *docgen) shuffle(m *dv) {
 	}
 }
 
+// step: one step; now and then a mapping step also carries a key of ANOTHER kind's family (the kind is decided by
+// family precedence, not by which key comes first in the document)
 func (g *docgen) step(depth int) *dv {
+	st := g.step1(depth)
+	if st.kind == 'm' && !st.has("type") && g.rng.Chance(7) {
+		k := sx.Pick(g.rng, []string{"command", "commands", "wait", "waiter", "block", "input", "manual", "trigger", "group"})
+		// (not command next to commands: the former is then ignored, a recorded limit of the normal form)
+		if !st.has(k) && !((k == "command" || k == "commands") && (st.has("command") || st.has("commands"))) {
+			st.m = append(st.m, dkv{k, dStr("other family " + g.mark())})
+			g.shuffle(st)
+		}
+	}
+	return st
+}
+
+func (g *docgen) step1(depth int) *dv {
 	r := g.rng.Intn(100)
 	switch {
 	case r < 45:
